@@ -2,4 +2,5 @@ import TinyFlux.Audit.Tool
 import TinyFlux.Props.C06
 import TinyFlux.Props.C06State
 import TinyFlux.Props.C06Witness
+import TinyFlux.Props.C06Mirror
 #audit TinyFlux.Props.C06
